@@ -227,7 +227,7 @@ def search(run: Run):
 def main():
     run = Run(
         PID,
-        ["RV.Props.C11", "RV.Bridge.Time", "RV.Bridge.Conversions"],
+        ["RV.Props.C11", "RV.Bridge.Time", "RV.Bridge.Conversions", "RV.Bridge.Sidereal"],
         ["RV/Model/Frames.lean", "RV/Model/Time.lean"],
         "Lean 4 corollaries of the frame-inverse theorems (C04) and of the Julian-date round trip (C05) for the Terrestrial model + bit-exact tie of the site's reference epoch + "
         "the real dynamicsFactory/Terrestrial.propagate path evaluated against the configured geodetic position at every step",
